@@ -381,7 +381,7 @@ pub fn knobs(profile: &str) -> Knobs {
         // weight-changing upserts of keys that are about to expire (C01, C05): the worker's weight update against the sweeper's
         // release of the same key id; meant for the lock grain ("lg-updrace")
         "updrace" => Knobs {
-            callers: (1, 2), ops: (30, 60), keys: (2, 3), max_weights: vec![40, 200], mixw: [30, 50, 2, 12, 2, 4, 0],
+            callers: (1, 2), ops: (30, 60), keys: (1, 2), max_weights: vec![40, 200], mixw: [30, 50, 2, 12, 2, 4, 0],
             ttl_pct: 100, weight_pct: 100, pou_ttl_pct: 0, await_pcts: vec![0, 30, 70], advance_pcts: vec![15, 25, 35], max_advances: vec![1, 1, 2],
             sweeper_pcts: vec![100], stall_sweeper_pct: 0, ttls: vec![1, 1, 2, 3], heavy_pct: 0, shards: vec![2, 2, 4], sticky: vec![0, 0, 50], ..d },
         // memory pressure: small caches, many puts, frequency profiles
@@ -573,6 +573,17 @@ pub fn generate(profile: &str, seed: u64, count: usize) -> Vec<Scenario> {
                                 }
                             }
                         }
+                    }
+                }
+                sc
+            }
+            "updrace" => {
+                // heavy puts, light upserts: a lost race between the worker's weight update and the sweeper's release shows in the total
+                let mut sc = gen.history(&name, &knobs("updrace"));
+                for (_, program) in sc.programs.iter_mut() {
+                    for o in program.iter_mut() {
+                        if o.op == "put" { o.w = gen.rng.gen_range(5..=9); }
+                        if o.op == "pou" && o.w > 0 { o.w = gen.rng.gen_range(1..=2); }
                     }
                 }
                 sc
